@@ -291,6 +291,87 @@ def correspondences(tier, rng):
             return (st.language, sorted((c, cfont.getGlyphID(n_)) for c, n_ in st.cmap.items()))
         return res(go)
     out.append(Corr("cmap6_decompile", d6, impl_c6_decompile))
+    # cmap format 4 (segment mapping to delta values): runs of consecutive codes with consecutive / scattered glyph IDs on both sides of
+    # splitRange's thresholds (4 / 8), code 0xFFFF, deltas that wrap, glyph index arrays, sizes at the 16-bit limits
+    from fontTools.ttLib.tables._c_m_a_p import cmap_format_4, splitRange
+    def gen_cmap4():
+        m = {}; code = rng.choice([0, 0x20, 0x41, 0xFF00, 0xFFC0, 40000]); k = rng.randint(0, 7)
+        for _ in range(k):
+            code += rng.choice([1, 1, 2, 3, 50, rng.randint(1, 3000)])
+            runlen = rng.choice([1, 2, 3, 4, 5, 6, 8, 9, 10, 13, 30])
+            g = rng.randint(1, NG - 1)
+            mode = rng.below(4)
+            for j in range(runlen):
+                if code > 0xFFFF + (1 if rng.chance(2) else 0): break
+                if mode == 0: g += 1                                         # consecutive IDs
+                elif mode == 1: g = rng.randint(1, NG - 1)                   # scattered
+                elif mode == 2: g = g + 1 if (j % rng.choice([3, 5, 6, 9, 10])) else rng.randint(1, NG - 1)   # ordered stretches inside a run
+                else: g = rng.choice([g + 1, g + 1, g + 1, g, 0, rng.randint(1, NG - 1)])
+                m[code] = rng.choice([g, g, g, g, 65535 if rng.chance(3) else g]) if g < NG else rng.randint(1, NG - 1)
+                code += 1
+        if rng.chance(3): m[0xFFFF] = rng.randint(1, NG - 1)
+        return (rng.choice([0, 0, 1, 65535] + ([65536] if rng.chance(4) else [])), sorted(m.items()))
+    c4 = [gen_cmap4() for _ in range(N(tier, 900, 12000))]
+    if tier != "quick":
+        # a glyph index array that pushes idRangeOffset / the length over 16 bits
+        big = sorted({0x100 + 2 * j: 1 + (j * 7) % (NG - 1) for j in range(1)}.items())
+        c4.append((0, [(0x1000 + j, 1 + (j * 7) % (NG - 1)) for j in range(33000)]))
+        c4.append((0, [(0x1000 + 2 * j, 1 + j % (NG - 1)) for j in range(8200)]))
+    def impl_c4_compile(x):
+        language, items = x
+        def go():
+            st = cmap_format_4(4); st.platformID, st.platEncID, st.language = 3, 1, language
+            st.cmap = {c: gname6(g) for c, g in items}
+            return list(st.compile(cfont))
+        return res(go)
+    def oracle_c4(x):
+        language, items = x
+        r = impl_c4_compile(x)
+        if isinstance(r, Err): return None
+        st = cmap_format_4(4); st.decompile(bytes(r.v), cfont)
+        want = {c: gname6(g) for c, g in items if g != 0}
+        if st.cmap != want:
+            diff = [c for c in set(want) | set(st.cmap) if want.get(c) != st.cmap.get(c)][:4]
+            return "cmap format 4 changed after compile/decompile at %r: %r -> %r" % (diff, [want.get(c) for c in diff], [st.cmap.get(c) for c in diff])
+        if st.language != language: return "language changed"
+        return None
+    out.append(Corr("cmap4_compile", c4, impl_c4_compile, oracle=oracle_c4))
+    d4 = []
+    for x in c4[:600 if tier == "quick" else 6000]:
+        r = impl_c4_compile(x)
+        if isinstance(r, Err): continue
+        b = list(r.v); r_ = rng.below(8)
+        if len(b) > 4000: continue
+        if r_ == 0: b = b[:rng.randint(0, len(b))]
+        elif r_ == 1 and b: b[rng.below(len(b))] ^= 1 << rng.below(8)
+        elif r_ == 2 and len(b) > 16:                                    # drop / add words but keep the header's length right
+            k_ = rng.choice([-2, 2, 4, -4, 1])
+            body = b[6:] + [0] * k_ if k_ > 0 else b[6:len(b) + k_]
+            b = list(_st.pack(">HHH", 4, (6 + len(body)) & 0xFFFF, 0)) + body
+        elif r_ == 3 and len(b) > 16:                                    # a different segment count over the same words
+            b[6:8] = list(_st.pack(">H", rng.choice([0, 2, 4, 6, 200, 65534])))
+        d4.append(b)
+    def impl_c4_decompile(b):
+        def go():
+            st = cmap_format_4(4); st.decompile(bytes(b), cfont)
+            return (st.language, [(c, cfont.getGlyphID(n_)) for c, n_ in st.cmap.items()])
+        return res(go)
+    out.append(Corr("cmap4_decompile", d4, impl_c4_decompile))
+    sr = []
+    for language, items in c4[:400 if tier == "quick" else 4000]:
+        # every maximal run of consecutive codes of the mapping, as compile hands it to splitRange
+        run = []
+        for c, g in items + [(None, None)]:
+            if run and (c is None or c != run[-1][0] + 1):
+                if len(run) <= 400: sr.append((run[0][0], run[-1][0], list(items)))
+                run = []
+            if c is not None: run.append((c, g))
+    def impl_split(x):
+        s_, e_, items = x
+        def go():
+            a, b_ = splitRange(s_, e_, dict(items)); return (list(a), list(b_))
+        return res(go)
+    out.append(Corr("splitRange", sr[:3000 if tier == "quick" else 40000], impl_split))
     # composite components: GlyphComponent.compile / decompile (argument widths at their boundaries, the three transform forms, kept flags)
     from fontTools.ttLib.tables._g_l_y_f import GlyphComponent
     from lib.ser import Opt
